@@ -35,6 +35,13 @@ class Snap:
         return (self.text == other.text and self.acts == other.acts and self.table == other.table
                 and (self.render is None or other.render is None or self.render == other.render))
 
+def same_value(a, b):
+    """two observations of *different* objects that should be the same value: text, per-character settings,
+    every rendering, and the change-point table up to the identity of the setting objects"""
+    strip = lambda t: {k: ([q[1] for q in v[0]], [q[1] for q in v[1]]) for k, v in t.items()}
+    acts = lambda l: [[q[1] for q in at] for at in l]
+    return a.text == b.text and acts(a.acts) == acts(b.acts) and a.render == b.render and strip(a.table) == strip(b.table)
+
 def eff(ts):
     return T.eff(ts)
 
